@@ -328,7 +328,16 @@ fn run(sh: &mut Shard) {
     }
     // values changed IN PLACE through the public mutable accessors carry their new content and nothing of the
     // old: they equal a fresh value of the new content (both ways) and differ from a fresh one of the old
-    let texts: Vec<String> = strings3().into_iter().chain(["foobar".to_string(), "ééééééé".to_string(), "a".repeat(40)]).collect();
+    // (texts of EVERY length up to 70 bytes and around 100 / 128 / 256 / 1000, plain and with wide characters;
+    // and every way of having LOOKED at the value before the edit: never, compared with an equal one, with a
+    // different one of the same length, with one of another length, asked for its text)
+    let mut texts: Vec<String> = strings3().into_iter().chain(["foobar".to_string(), "ééééééé".to_string(), "a".repeat(40)]).collect();
+    for len in (0..=70usize).chain([99, 100, 127, 128, 129, 255, 256, 257, 1000]) {
+        texts.push((0..len).map(|i| (b'a' + (i % 26) as u8) as char).collect());
+        if len % 2 == 0 && len > 0 {
+            texts.push("é".repeat(len / 2));
+        }
+    }
     type Edit = fn(&mut String);
     let edits: Vec<(&str, Edit)> = vec![
         ("push x", |t| t.push('x')),
@@ -357,10 +366,36 @@ fn run(sh: &mut Shard) {
     ];
     for t in &texts {
         for (ename, edit) in &edits {
+          for looked in 0..5u8 {
             let mut expected = t.clone();
             edit(&mut expected);
             let r = guarded(|| {
                 let mut o = Object::string(t.as_str(), &mut gc);
+                // the value is looked at before it is edited (whatever that remembers must not outlive the edit)
+                match looked {
+                    1 => {
+                        let same = Object::string(t.as_str(), &mut gc);
+                        assert!(o == same && !(o != same), "equal before the edit");
+                    }
+                    2 => {
+                        let mut d = t.clone().into_bytes();
+                        if let Some(l) = d.last_mut() {
+                            *l = b'~';
+                        }
+                        let diff = Object::string(String::from_utf8_lossy(&d).as_ref(), &mut gc);
+                        let _ = o == diff;
+                        let _ = diff == o;
+                    }
+                    3 => {
+                        let longer = Object::string(format!("{t}+").as_str(), &mut gc);
+                        assert!(o != longer, "a longer text differs");
+                    }
+                    4 => {
+                        let _ = o.as_str().len();
+                        let _ = format!("{o}");
+                    }
+                    _ => {}
+                }
                 edit(o.as_string_mut());
                 let fresh = Object::string(expected.as_str(), &mut gc);
                 let old = Object::string(t.as_str(), &mut gc);
@@ -369,10 +404,11 @@ fn run(sh: &mut Shard) {
             let same_as_old = expected == *t;
             check(
                 sh,
-                format!("string {t:?} edited in place ({ename})"),
+                format!("string {t:?} edited in place ({ename}; looked at before: {looked})"),
                 matches!(&r, Ok((true, true, true, false, eq_old, Type::String)) if *eq_old == same_as_old),
                 || format!("(content, == fresh, fresh ==, != fresh, == old, tag) = {r:?}; the new content is {expected:?}"),
             );
+          }
         }
     }
     // longer strings (around the machine-word sizes): equal copies are equal, a change of ONE character at any
